@@ -14,6 +14,9 @@ pub struct C09Case {
     pub w: World,
     /// reach the store through the registry functions instead of `Store`
     pub via_registry: bool,
+    /// every query is first run under other markers ("[", "]"), the configured markers are then
+    /// restored and the same query is repeated: the repeated answer is the one examined
+    pub remarked: bool,
 }
 
 /// joined shapes over-represented: titles a-b / a b / ab against queries ab / a b with 0-1 typos
@@ -96,7 +99,8 @@ pub fn decode(src: &mut Source) -> Box<dyn Case> {
         let pad = *src.pick(&[" ", "\u{a0}", "\t", "\u{1b}"]);
         w.markers = (format!("{}{}", SL, pad), format!("{}{}", pad, SR));
     }
-    Box::new(C09Case { w, via_registry })
+    let remarked = src.chance(1, 4);
+    Box::new(C09Case { w, via_registry, remarked })
 }
 
 impl Case for C09Case {
@@ -104,6 +108,7 @@ impl Case for C09Case {
         let mut d = self.w.describe();
         d["markers"] = serde_json::json!(format!("sentinels U+E000/U+E001, as configured: ({:?}, {:?})", self.w.markers.0, self.w.markers.1));
         d["via_registry"] = serde_json::json!(self.via_registry);
+        d["each_query_first_run_under_other_markers"] = serde_json::json!(self.remarked);
         d
     }
     fn key(&self) -> u64 {
@@ -111,13 +116,19 @@ impl Case for C09Case {
     }
     fn check(&self, ctx: &mut Ctx) -> Result<(), Violation> {
         let w = &self.w;
-        let store = w.backend(self.via_registry);
+        let mut store = w.backend(self.via_registry);
         let l = lang_of(w.lang);
         let toks: Vec<TextOwn> = w.recs.iter().map(|r| tokenize_record(&r.1, &l)).collect();
         // padded markers: the padding must come back exactly; it is then removed for the span walk
         let (ml, mr) = (w.markers.0.clone(), w.markers.1.clone());
         let padded = ml.chars().count() > 1;
         for q in &w.queries {
+            if self.remarked {
+                store.set_markers("[", "]");
+                let _ = store.search(q);
+                store.set_markers(&ml, &mr);
+                ctx.label("query-repeated-after-marker-change");
+            }
             let mut hits = store.search(q);
             if padded {
                 for h in hits.iter_mut() {
